@@ -60,6 +60,8 @@ func c03GenOps(r *Rng) Sx {
 			ops = append(ops, L(N(5), S(c03Path(r, false)), mode))
 		case k < 22:
 			ops = append(ops, L(N(7), S(Pick(r, c03Targets)), S(c03Path(r, false))))
+		case k < 32 && r.Chance(25):
+			ops = append(ops, L(N(19), S(c03Path(r, false)), mode, B(fillContent(r, Pick(r, []int{0, 0, 2, 5})))))
 		case k < 32:
 			data := fillContent(r, Pick(r, []int{0, 1, 3, 7}))
 			ops = append(ops, L(N(9), S(c03Path(r, false)), Bool(r.Chance(75)), mode, NI(Pick(r, []int{0, 0, 0, 2, 5})), B(data)))
